@@ -9,40 +9,40 @@ CHECKS = {
     "C08": ("exploration", "runtime monitoring: differential oracle — for random type systems over every implemented representation strategy and generated inhabitants, the read-out monitor compares the type-level view and the representation view of nodes built through both builders with a reference model of the strategy relation; codec round trips through the representation builder compared byte-for-byte and value-for-value",
             "Held on the type systems and values observed for the reflection binding (inferred Go types); generated code runs the same monitor inside C13. Sampling of type systems (non-cyclic, depth <= 4) and values.",
             "Trusted: lib/ref/schema (strategy relation written from the IPLD Schema specification), lib/obs. Tuple structs only with trailing absents.", "DESIGN.md §2 C08"),
-    "C09": ("exploration", "runtime monitoring: differential oracle — conforming values and random local mutations of them (type level and representation level, directly and through dag-cbor(relaxed)/dag-json) are fed to typed builders; accept/reject, error-not-panic and the accepted value are compared with a reference conformance decision",
+    "C09": ("exploration", "runtime monitoring: differential oracle — conforming values and random local mutations of them (type level and representation level, directly and through dag-cbor(relaxed)/dag-json) are fed to typed builders; accept/reject, error-not-panic and the accepted value are compared with a reference conformance decision; a coverage-distilled corpus of DAG-CBOR inputs for twelve fixed type systems is replayed against the same reference",
             "Held on the inputs observed for the reflection binding; generated code runs the same monitor inside C13. Sampling.",
             "Trusted: lib/ref/schema ParseType/ParseRepr.", "DESIGN.md §2 C09"),
     "C13": ("exploration", "runtime monitoring: per batch the generator in the working tree is run on freshly drawn type systems (every struct, map, list and union strategy it supports, optional/nullable fields, complex keys), the output is compiled with go build into a driver linked with the monitors, and the driver feeds the same conforming and mutated inputs, at type and representation level, to the generated prototypes and to bindnode prototypes of the same schema in lock-step: accept/reject, panic, type-level read-out, representation read-out and dag-cbor/dag-json bytes are compared; the C08 view monitor and the C09 conformance monitor run on the generated engine against the reference model as well",
-            "Held on the type systems and inputs observed: every generated package compiled, and the two engines agreed on everything compared, apart from one known finding (a tuple struct value with an absent optional before a present one, which has no representation, is improvised differently). Sampling of type systems and inputs.",
+            "Held on the type systems and inputs observed: every generated package compiled, and the two engines agreed on everything compared, apart from two known findings (a tuple struct value with an absent optional before a present one, which has no representation, is improvised differently; the package generated for a struct with 64 or more fields does not compile). Sampling of type systems and inputs.",
             "Trusted: go build as the compile oracle; lib/ref/schema where the engines are judged against the reference and not only each other. Enums, Any and listpairs are outside the generator's feature set.", "DESIGN.md §2 C13"),
     "C19": ("exploration", "runtime monitoring: differential oracle — an independent reflection walk between Go values and typed abstract values (lib/gobind) is compared with what bindnode exposes: read-out of Wrap(&v) at both levels vs the walk of v; walk of Unwrap(built node) vs what was assembled (type and representation builders); Marshal bytes vs the reference encoding of the representation and the walk of the freshly unmarshalled value (dag-cbor, dag-json; typed-nil bind form); integers outside the Go field's range must be refused by builders and Unmarshal; each case ends with a history of repeated/interleaved Wrap/Prototype/Unwrap/Marshal/Unmarshal calls with explicit and inferred schemas over bindings of this and earlier cases of the same process",
             "Held on the bindings, values and histories observed (Go types drawn by reflection for random type systems over all documented shapes, a declared library of named types, and inferable types), apart from one known finding (a uint64 member above MaxInt64 inside a kinded union cannot be marshalled). Sampling.",
             "Trusted: lib/gobind walkers, lib/ref/schema, lib/ref/cbor. Nilable-without-pointer only for struct fields (documented); float32 fields get float32-representable values; dag-json skipped for floats and integers above MaxInt64.", "DESIGN.md §2 C19"),
-    "C16": ("exploration", "runtime monitoring: model-based monitor of transform sequences — each FocusedTransform result, callback argument, error outcome, set of blocks written and the graph reloaded from the new root are compared with a reference functional update over the abstract graph; the input tree is re-read after every step; WalkTransforming results compared with the reference selector walk's matches on link-free trees; a probe records the walking transform across a link",
+    "C16": ("exploration", "runtime monitoring: model-based monitor of transform sequences — each FocusedTransform result, callback argument, error outcome, set of blocks written and the graph reloaded from the new root are compared with a reference functional update over the abstract graph; the input tree is re-read after every step; WalkTransforming results compared with the reference selector walk's matches on link-free trees; a probe records the walking transform across a link; the walking transform under link controls (visit-once, skipping loader) must keep the input's skeleton; callback errors must surface",
             "Held on the transform sequences observed (existing/new/append/delete targets, through links, with unavailable blocks) apart from one known finding (WalkTransforming inlines linked blocks). Sampling.",
             "Trusted: the reference update in lib/props/c16.go (documented FocusedTransform semantics), lib/ref/sel, lib/ref/cbor.", "DESIGN.md §2 C16"),
     "C07": ("exploration", "runtime monitoring: differential oracle — visits (path, node value, reason) and link loads recorded at the callback and storage boundaries of WalkAdv/WalkMatching are compared with a reference denotational walk of the selector AST over the abstract graph; each selector compiled three ways (builder, spec tree, DAG-JSON text)",
             "Held on the (graph, selector) pairs observed, for all clause kinds incl. recursion limits, edges, stop-at and subset matchers. Sampling; the oracle is a model written for this task (see level_note).",
             "Trusted: lib/ref/sel (specified semantics; repository doc comments where the spec is silent). A stricter-than-specified model would show as a false alarm; every disagreement seen on the unchanged tree was examined (DESIGN §4).", "DESIGN.md §2 C07"),
-    "C14": ("exploration", "runtime monitoring: during walks every visited (path, node) is resolved back from the root three ways (Get, Focus, stepwise LookupBySegment with link loading) and compared with the visited node and with a reference resolver over the abstract graph; paths are kept beyond the callback and resolved again after the walk; all positions enumerated from the nodes' own keys/indices; perturbed (partially existing) paths must fail exactly when the reference says so; String/ParsePath round trip",
+    "C14": ("exploration", "runtime monitoring: during walks every visited (path, node) is resolved back from the root three ways (Get, Focus, stepwise LookupBySegment with link loading) and compared with the visited node and with a reference resolver over the abstract graph; paths are kept beyond the callback and resolved again after the walk; all positions enumerated from the nodes' own keys/indices; perturbed (partially existing, near-numeric) paths must fail exactly when the reference says so; String/ParsePath round trip; WalkLocal visits; a coverage-distilled corpus of path texts",
             "Held on the graphs, walks and paths observed. Sampling of graphs; per graph all positions (capped at 400) and all visits are checked.",
             "Trusted: the reference resolver in lib/props/c14.go, lib/obs.", "DESIGN.md §2 C14"),
-    "C15": ("exploration", "runtime monitoring with a metamorphic oracle: restricted walks (every node budget 0..|U|+2, every link budget 0..|L|+1, start-at every visited path, visit-links-once, loader skip sets) compared with the implementation's own unrestricted visit and load sequences recorded at the callback and storage boundaries",
+    "C15": ("exploration", "runtime monitoring with a metamorphic oracle: restricted walks (every node budget 0..|U|+2, every link budget 0..|L|+1, start-at every visited path, visit-links-once, loader skip sets) compared with the implementation's own unrestricted visit and load sequences recorded at the callback and storage boundaries; the local walk compared with the harness's enumeration of positions under every node budget and with SkipMe from the callback; the transforming walk's loads under visit-links-once",
             "Held on the (graph, selector) pairs observed; per pair the budget and start-at spaces are enumerated completely (sampled for walks longer than 40-60 visits).",
             "Trusted: nothing beyond the unrestricted walk being deterministic (checked). No preloader.", "DESIGN.md §2 C15"),
-    "C20": ("exploration", "sanitizer + result monitor: Go race detector build; goroutines run seeded read-only operations on one pool of shared nodes, selectors, prototypes, type systems, registry, link system and traversal config, in warm mode (sequential reference digests first) and cold mode (first use is concurrent); per-goroutine result digests compared with sequential ones; race logs de-duplicated by innermost library frames; overlap table shows which operation pairs were in flight together; link systems over memstore and over a pre-filled fsstore; a separate process for first-time schema inference under readers and for eight goroutines binding the same not-yet-inferred types at once",
+    "C20": ("exploration", "sanitizer + result monitor: Go race detector build; goroutines run seeded read-only operations on one pool of shared nodes, selectors, prototypes, type systems, registry, link system and traversal config, in warm mode (sequential reference digests first) and cold mode (first use is concurrent); per-goroutine result digests compared with sequential ones; race logs de-duplicated by innermost library frames; overlap table shows which operation pairs were in flight together; link systems over memstore and over a pre-filled fsstore; a separate process for first-time schema inference under readers and for eight goroutines binding the same not-yet-inferred types at once; a freshly generated type system bound by all goroutines at once",
             "Held on the schedules observed apart from one known finding (first-time schema inference writes the process-wide bindnode type system while readers use it). Absence of a race report is not absence of a race.",
             "Trusted: the race detector. Stream-backed bytes nodes share the caller's reader and are not read concurrently.", "DESIGN.md §2 C20"),
-    "C18": ("fault_enumeration", "runtime monitoring with crash and fault injection from outside the process: strace enumerates the file-system syscalls of each write scenario and injects SIGKILL (crash point) or an errno before every one of them; a fresh verifier process classifies the directory afterwards; concurrent reader/writer histories recorded at the client boundary and checked with porcupine (write-once register per key) in the race-detector build; fault-then-crash enumeration on the path a fault opens; random-instant SIGKILL of a child with six concurrently writing goroutines; puts under contexts cancelled at their n-th consultation; keys given two contents by concurrent writers (every read is one of them in full)",
+    "C18": ("fault_enumeration", "runtime monitoring with crash and fault injection from outside the process: strace enumerates the file-system syscalls of each write scenario and injects SIGKILL (crash point) or an errno before every one of them; a fresh verifier process classifies the directory afterwards; concurrent reader/writer histories recorded at the client boundary and checked with porcupine (write-once register per key) in the race-detector build; fault-then-crash enumeration on the path a fault opens; random-instant SIGKILL of a child with six concurrently writing goroutines; puts under contexts cancelled at their n-th consultation; keys given two contents by concurrent writers (every read is one of them in full); several Store values on one directory with harness-interleaved streams",
             "Every syscall boundary of every scenario was used as a crash point and as a fault point (and, where a fault opens another path, every syscall of that path as a crash point too) and the store was found atomic and usable afterwards; concurrent histories were linearizable and free of partial or mixed reads and race reports; cancelled writes left keys absent or complete. Exhaustive per scenario; sampling over schedules and kill instants.",
             "Trusted: strace injection as crash/fault model (process death and syscall errors; no power-loss model), porcupine, the race detector.", "DESIGN.md §2 C18"),
     "C17": ("exploration", "runtime monitoring: histories of storage operations (incl. overlapping stream lifetimes) checked online against a write-once map model; containment of the filesystem store observed externally with strace (every path argument of every file syscall inside a history) and with sentinel files around the base directory",
             "Held on the histories observed for memstore, cidlink.Memory and fsstore (default and hex-escaped, three shardings) over a hostile key pool. Sampling of histories.",
             "Trusted: the map model, strace as observer. Identity escaping is not exercised.", "DESIGN.md §2 C17"),
-    "C10": ("exploration", "runtime monitoring: panic/process-death monitor (child per batch, case replayed alone to confirm), nesting-depth monitor (recording assembler), allocation monitor (runtime.MemStats.TotalAlloc delta against a budget-relative bound), over random, mutated and structure-aware hostile inputs to the five decoders under many configurations and targets, to the selector compiler and the walks of what compiles, and to ParsePath",
+    "C10": ("exploration", "runtime monitoring: panic/process-death monitor (child per batch, case replayed alone to confirm), nesting-depth monitor (recording assembler), allocation monitor (runtime.MemStats.TotalAlloc delta against a budget-relative bound), over random, mutated and structure-aware hostile inputs to the five decoders under many configurations and targets, to the selector compiler (tree and JSON-text entry points) and the walks of what compiles (incl. a recursion-limit sweep and budget-relative length claims), and to ParsePath; plus deterministic replay of an input corpus distilled by coverage-guided campaigns (Go native fuzzing choosing inputs, the same monitors judging them)",
             "Held on the executions observed: no panic, no process death, depth and allocation within the configured bounds. Termination is a per-batch watchdog (inconclusive when it fires), so 'terminates' is bounded progress only.",
             "Trusted: allocation constants calibrated on the unchanged tree (>=4x headroom); the bound is relative to the configured budget.", "DESIGN.md §2 C10"),
-    "C04": ("exploration", "runtime monitoring: differential oracle — the encoder's output is read by an independent DAG-JSON reader (encoding/json token stream + reserved-form rules) and by the library decoder, both compared with the abstract value; encodings compared across insertion orders and implementations; failed decodes interleaved",
+    "C04": ("exploration", "runtime monitoring: differential oracle — the encoder's output is read by an independent DAG-JSON reader (encoding/json token stream + reserved-form rules) and by the library decoder, both compared with the abstract value; encodings compared across insertion orders and implementations; failed decodes and failed encodes interleaved; values denoted by a coverage-distilled corpus of DAG-JSON texts get the same monitors",
             "Held on the executions observed apart from two known findings with one cause in the pinned dependency refmt (integral floats are written without '.' and so change kind or stop decoding). Sampling with boundary bias.",
             "Trusted: encoding/json as tokenizer, go-cid for the CID string form, lib/ref/json.", "DESIGN.md §2 C04"),
     "C12": ("exploration", "runtime monitoring: model-based monitor of assembler call sequences — generated legal sequences with the two pinned rejections (repeated key in three call forms; unacceptable kind) injected at random positions, outcome class per call and read-out of Build() checked against a sequential model of the contract; Reset/reuse sequences",
@@ -54,7 +54,7 @@ CHECKS = {
     "C05": ("exploration", "runtime monitoring: histories of store/compute/load operations checked online against a sequential model (write-once map) with reference links (stdlib digests, hand-built CIDs) over reference block bytes",
             "Held on the histories observed: every Store/ComputeLink returned the reference link, storage held exactly the reference bytes, every load form returned the stored value and bytes, results handed out earlier did not change later. Sampling of histories and configurations.",
             "Trusted: lib/ref/link, lib/ref/cbor, stdlib crypto; for cbor/json/dag-json the expected bytes come from the codec's own direct Encode.", "DESIGN.md §2 C05"),
-    "C06": ("fault_enumeration", "runtime monitoring with fault injection at the storage boundary: per stored block, exhaustive bit flips, truncations, read-error offsets, extensions, substitutions, chunkings, last-bytes-with-EOF reads and extended blocks arriving in pieces; writer/encoder failures on the store side with a recording committer",
+    "C06": ("fault_enumeration", "runtime monitoring with fault injection at the storage boundary: per stored block, exhaustive bit flips, truncations, read-error offsets, extensions, substitutions, chunkings, last-bytes-with-EOF reads and extended blocks arriving in pieces; writer/encoder failures (iterators and scalar accessors of a faulty node) on the store side with a recording committer; open and commit errors; loads into a prototype whose builder refuses the block; large blocks faulted at buffer boundaries",
             "For each corpus block every fault of the listed classes was injected into each of Load/LoadRaw/LoadPlusRaw/Fill and the outcome compared with an independent digest of the served bytes; exhaustive per block, sampling over blocks.",
             "Trusted: stdlib digests + lib/ref/link. (0,nil) reads are not part of the fault family (see DESIGN §5).", "DESIGN.md §2 C06"),
     "C01": ("exploration", "runtime monitoring: read-out monitor (every accessor twice, both iterators, every lookup form, wrong-kind probes) over nodes built by randomly drawn legal build programs, compared with the abstract value; DeepEqual/Copy compared with model equality",
@@ -63,7 +63,7 @@ CHECKS = {
     "C02": ("exploration", "runtime monitoring: differential oracle (independent canonical DAG-CBOR reference encoder) over generated values, all insertion orders of small maps, head-boundary sweep, interleaved failed encodes",
             "Held on the executions observed: every generated value, in several insertion orders and node implementations, encoded to exactly the reference encoder's bytes; EncodedLength matched; decode read back the key-sorted value. Sampling with boundary bias, not a proof.",
             "Trusted: lib/ref/cbor encoder (written from the spec), go-cid for CID parsing.", "DESIGN.md §2 C02"),
-    "C03": ("exploration", "runtime monitoring: differential oracle (independent strict reference decoder) over an exhaustive short-input space plus single-point, multi-point and structure-aware mutations of valid encodings; basicnode and recording-assembler targets; bytes.Reader and plain io.Reader shapes (whole, one byte per call, last bytes with io.EOF)",
+    "C03": ("exploration", "runtime monitoring: differential oracle (independent strict reference decoder) over an exhaustive short-input space plus single-point, multi-point and structure-aware mutations of valid encodings; basicnode and recording-assembler targets; bytes.Reader and plain io.Reader shapes (whole, one byte per call, last bytes with io.EOF); plus deterministic replay of an input corpus distilled by coverage-guided campaigns, judged by the same reference decoder",
             "Held on the executions observed; the sub-space of all byte strings of length 0-2 (quick) / 0-3 (thorough) is enumerated completely, the rest is mutation sampling. One known finding in the pinned dependency refmt (-2^64 decodes as 0).",
             "Trusted: lib/ref/cbor decoder, go-cid for CID syntax; UTF-8 validity and resource limits are outside the oracle.", "DESIGN.md §2 C03"),
 }
